@@ -367,7 +367,7 @@ theorem build_unsat (ny nz k : Nat) (g : SimpleG) (hg : GraphOK g) (hn : 1 ≤ g
   cases this
 
 theorem check_ok {v d ny nz k : Int} (h : Pitfall.check v d ny nz k = .ok ()) :
-    1 ≤ v ∧ 1 ≤ d ∧ 1 ≤ ny ∧ 2 ≤ nz ∧ 1 ≤ k ∧ k % 2 = 0 ∧ d ≤ v ∧ v * d % 2 ≠ 1 := by
+    1 ≤ v ∧ 1 ≤ d ∧ 1 ≤ ny ∧ 2 ≤ nz ∧ 1 ≤ k ∧ k % 2 = 0 ∧ d < v ∧ v * d % 2 ≠ 1 := by
   simp only [Pitfall.check, Pitfall.positiveInt, bind, Except.bind] at h
   repeat' split at h
   all_goals (try cases h)
